@@ -111,6 +111,49 @@ fn scenarios(r: &mut Rng, n: usize) -> Vec<Scenario> {
     // TLS: endless sequence of small non-hello handshake records
     let t4: Vec<Vec<u8>> = (0..n).map(|_| vec![0x16, 3, 3, 0, 4, 0, 0, 0, 0]).collect();
     out.push(Scenario { name: "tls-many-records", an: An::Tls, segs: mk_stream(c, st, false, t4, vec![]) });
+    // HTTP: the 4-tuple is re-opened again and again by SYNs with new sequence numbers (sometimes retransmitted,
+    // sometimes from the other side), each followed by junk that never forms a head: every re-opening drops what
+    // the previous connection left
+    {
+        let mut segs = vec![];
+        let rounds = (n / 8).max(3);
+        for i in 0..rounds {
+            let from_server = i % 5 == 4;
+            let (a, b) = if from_server { (s, c) } else { (c, s) };
+            let isn = 1000u32.wrapping_add((i as u32).wrapping_mul(1_000_003));
+            let mut x = Seg::new(a, b, SYN);
+            x.seq = isn;
+            segs.push(x.clone());
+            if i % 3 == 1 {
+                segs.push(x); // retransmitted SYN: the flow stays
+            }
+            let mut seq = isn.wrapping_add(1);
+            for _ in 0..7 {
+                let mut g = Seg::new(a, b, ACK | PSH);
+                g.seq = seq;
+                g.payload = r.bytes(seglen);
+                seq = seq.wrapping_add(seglen as u32);
+                segs.push(g);
+            }
+        }
+        out.push(Scenario { name: "http-syn-reopen", an: An::Http, segs });
+    }
+    // TLS: likewise — every round a SYN, then the start of a 16 KiB handshake record that never completes
+    {
+        let mut segs = vec![];
+        let rounds = (n / 8).max(3);
+        for i in 0..rounds {
+            let mut x = Seg::new(c, st, SYN);
+            x.seq = 1000u32.wrapping_add((i as u32).wrapping_mul(1_000_003));
+            segs.push(x);
+            for k in 0..7 {
+                let mut g = Seg::new(c, st, ACK | PSH);
+                g.payload = if k == 0 { let mut v = vec![0x16, 3, 1, 0x40, 0x00]; v.extend(r.bytes(seglen)); v } else { r.bytes(seglen) };
+                segs.push(g);
+            }
+        }
+        out.push(Scenario { name: "tls-syn-reopen", an: An::Tls, segs });
+    }
     // TCP: n timestamped ACKs in both directions
     let mut tcp = vec![];
     for i in 0..n {
